@@ -14,7 +14,9 @@ PROP = {'modules': ['SfntV.Props.C19'],
                        'C19_roundtrip_gsub2_partial',
                        'C19_roundtrip_gsub3_partial',
                        'C19_roundtrip_gsub4_partial',
-                       'C19_roundtrip_lists_partial'],
+                       'C19_roundtrip_subtables_partial',
+                       'C19_roundtrip_lists_partial',
+                       'C19_total_partial'],
  'areas': [('dsl', 1500, 30000)],
  'rule': 'distinct case lines (font = glyph count, names, cmap; text or lookup list; GOMAXPROCS); non-trivial = '
          'text of at least two bytes / at least one lookup / a non-zero flag set',
@@ -23,14 +25,13 @@ PROP = {'modules': ['SfntV.Props.C19'],
              'small fonts (numbers/ranges; names, strings with escapes), by kernel evaluation of the whole '
              'pipeline printer -> UTF-8 -> lexer -> parser; beyond them the round trip is checked on the real code '
              '(stream dsl.roundtrip) and on the model (dsl.modelrt)',
-             'GSUB 5/6 and GPOS 1-4: parser and printer not modelled; covered only by the streams dsl.total and '
-             'dsl.goroutines (the model answers "unmodelled" and the generator keeps them out of dsl.parse)',
-             'several subtables per lookup for GSUB 1-4: excluded from the domain (LookupOk), the code does not '
-             're-read the "||" separator there (known finding C19-or-separator)',
-             'C19_total_full (parser model returns lookups or an error with line >= 1, including that no loop '
-             'runs out of fuel) is stated, not proved; the lexer half is C19_lex_total; the real code is '
-             'checked by stream dsl.total (outcome class and line >= 1) and every dsl.parse line compares the '
-             'line number',
+             'GSUB 5/6 and GPOS 1-4: parser and printer not modelled in Lean; the round trip Parse(Explain(l)) = l is '
+             'evaluated on the real code only (stream dsl.rtseed: lookups regenerated from the seed in the case line, '
+             'structural comparison in the harness, Lean side fixes the verdict), plus dsl.total and dsl.goroutines',
+             'C19_total_full (no unmodelled escape) is stated; C19_total_partial is proved for all fonts and texts: the '
+             'parser model (lexer, item supply, fatal, flags, glyph lists, GSUB 1-4 with several subtables) returns '
+             'lookups or an error with line >= 1 or stops at a GSUB 5/6 / GPOS keyword, and never runs out of loop '
+             'fuel; for the other forms the real code is checked by stream dsl.total (outcome class and line >= 1)',
              'goroutine clause: C19_confluent/C19_terminates/C19_no_leak are about the process model; that the Go '
              'runtime implements unbuffered channels as the model says is trusted; the real code is observed by '
              'goroutine profiles after Parse under GOMAXPROCS 1, 2, 4, 16 (dsl.goroutines)',
@@ -47,7 +48,7 @@ PROP = {'modules': ['SfntV.Props.C19'],
                            'error messages are compared by class (leading words of the format string) and line, '
                            'not by full text'],
  'assumptions': ['Dom (round trip): FontOk (fewer than 65536 glyphs, non-empty glyph names distinct and lexing as one '
-                 'identifier, cmap into the font) and LookupOk (flags within the 4 covered bits, one subtable, '
+                 'identifier, cmap into the font) and LookupOk (flags within the 4 covered bits, one or more subtables, '
                  'coverage in ascending index order, glyph ids inside the font, non-empty right-hand sides where '
                  'the parser insists on them)',
                  'Parse needs a font with a cmap table: without one it returns "cmap: no cmap table found" '
@@ -67,8 +68,8 @@ LEVEL = {'text': 'Proof (partial): Lean models of the lexer (token machine over 
          'the real code.',
  'note': 'Trusted: Lean kernel + 3 standard axioms; hand-written models mirror lexer.go/parser.go/explain.go as '
          'checked by sampled correspondence; Go runtime semantics of unbuffered channels; Unicode tables of the '
-         'toolchain (regenerated). Seven defects were repaired in the working tree (flag spellings, decoder '
-         'goroutine leak, line 0 in errors, alternates re-sorted, %q escapes, numeric ranges, ranges in GSUB4); one '
-         'is open (|| separator for GSUB 1-4).',
+         'toolchain (regenerated). Eleven defects were repaired in the working tree (flag spellings, decoder '
+         'goroutine leak, line 0 in errors, alternates re-sorted, %q escapes, || for GSUB 1-4, numeric ranges, ranges '
+         'in GSUB4, class definitions glued to flags, double line break before later GPOS2.2/GPOS4 subtables, dy).',
  'technique': 'Lean 4 proofs (induction over inputs and schedules, diamond property, kernel evaluation of finite '
               'universes) + differential correspondence + direct evaluation on the real code'}
